@@ -211,7 +211,7 @@ func checkMain(args []string) int {
 	prop := args[0]
 	tierName := args[1]
 	tier := 0
-	cfg := tierCfg{maxPaths: 400000, timeout: 8 * time.Minute, witnessN: 6}
+	cfg := tierCfg{maxPaths: 400000, timeout: 25 * time.Minute, witnessN: 6} // (C04 needs ~2 min on 16 idle cores, ~4 min on a loaded machine)
 	if tierName == "thorough" {
 		tier = 1
 		cfg = tierCfg{maxPaths: 5000000, timeout: 100 * time.Minute, witnessN: 24}
